@@ -362,6 +362,14 @@ def run_property(pid, tier):
         cov["distinct_nontrivial"] = sum(s.get("distinct_nontrivial", 0) for s in shell_cov)
         cov["rule"] = " | ".join(s.get("rule", "") for s in shell_cov)
         cov["traces_validated_against_impl"] = sum(s.get("traces_validated_against_impl", 0) for s in shell_cov)
+    if thorough:
+        cov["lean"] = lean_check() if getattr(prop, "USES_SUM_LEMMAS", False) or any("lemma sum_" in (o.get("detail") or "") for o in vcs) else \
+            {"checked": False, "reason": "no finite-sum lemma is applied for this property"}
+        if cov["lean"].get("checked") and not cov["lean"].get("ok"):
+            rep.broken.append("lean/SumLemmas.lean does not check: %s" % cov["lean"].get("output", "")[:300])
+        cov["mutants"] = run_mutants(pid)
+    else:
+        cov["lean"] = {"checked": False, "reason": "quick tier: lean/SumLemmas.lean is an assumption here (checked in the thorough tier)"}
     extra = getattr(prop, "extra_coverage", None)
     if extra:
         cov.update(extra(tier))
@@ -386,6 +394,43 @@ def run_property(pid, tier):
         return 2
     print("OK %s" % pid)
     return 0
+
+
+def lean_check():
+    import subprocess, shutil
+    if shutil.which("lean") is None:
+        return {"checked": False, "reason": "lean not on PATH"}
+    t0 = time.time()
+    try:
+        p = subprocess.run(["lean", os.path.join(HERE, "lean", "SumLemmas.lean")], capture_output=True, text=True, timeout=600)
+    except subprocess.TimeoutExpired:
+        return {"checked": True, "ok": False, "output": "timeout"}
+    out = (p.stdout + p.stderr)
+    ok = p.returncode == 0 and "error" not in out and "sorry" not in out
+    return {"checked": True, "ok": ok, "wall_s": round(time.time() - t0, 1), "theorems": ["sum_congr_on", "sum_zero_on", "sum_update_fin", "sum_update_one",
+                                                                                      "sum_support_irrelevant", "sum_insert_new"],
+            "output": out[-400:] if not ok else ""}
+
+
+def run_mutants(pid):
+    """thorough tier: every kept seeded change of this property, applied to a scratch copy outside /repo and /verif, must be reported"""
+    import importlib.util
+    spec = importlib.util.spec_from_file_location("seed_matrix", os.path.join(HERE, "tools", "seed_matrix.py"))
+    sm = importlib.util.module_from_spec(spec)
+    spec.loader.exec_module(sm)
+    sdir = os.path.join(HERE, "seeded")
+    seeds = sorted(d for d in os.listdir(sdir) if d.startswith(pid + "_") and os.path.isfile(os.path.join(sdir, d, "patch.diff")))
+    if os.environ.get("VERIF_NO_MUTANTS") or os.environ.get("VERIF_REPO", "/repo") != "/repo":
+        return {"applied": 0, "killed": 0, "survivors": [], "note": "skipped (nested run)"}
+    killed, surv, detail = 0, [], {}
+    for sid in seeds:
+        _, r = sm.run_one(sid)
+        detail[sid] = {"exit": r.get("exit"), "failed_obligations": r.get("failed_obligations", [])[:3], "error": r.get("error")}
+        if r.get("exit") == 1:
+            killed += 1
+        else:
+            surv.append(sid)
+    return {"applied": len(seeds), "killed": killed, "survivors": surv, "detail": detail}
 
 
 def back_end_summary(vcs):
